@@ -232,6 +232,10 @@ impl AsmParser {
                     self.tok_end - tok.span.offs()
                 };
                 let span = Span::new(SrcOffset(tok.span.offs()), len);
+                // Statements are numbered with 16 bits, like the memory they are loaded into
+                if self.air.len() >= u16::MAX as usize {
+                    return Err(error::parse_too_long(span, self.src));
+                }
                 self.air.add_stmt(stmt, span);
             } else {
                 if labeled_line {
@@ -240,7 +244,8 @@ impl AsmParser {
                 break;
             }
 
-            self.line += 1;
+            // Cannot wrap for a statement that is kept: the check above fails first
+            self.line = self.line.wrapping_add(1);
         }
         Ok(self.air)
     }
